@@ -85,12 +85,20 @@ def run(tier, seed):
 
     while evals < n and len([f for f in failures if not f['key'].startswith('mixed-base-root')]) < 6:
         kind = rng.choice(["unit", "unit", "unit", "dim", "prefix"])
+        forced = None
         if kind == "unit":
             pf = rng.choice([si, iec])
             atoms = []
             for _ in range(rng.choice([1, 2, 3, 4])):
                 u = rng.choice(units)
                 atoms.append("(%s*%s)" % (rng.choice(pf), u) if rng.random() < 0.3 else u)
+            if rng.random() < 0.2:
+                # a dimensionless unit that keeps a prefix: (p*u)**e * u**-e  (and nothing else, half of the time)
+                u, e = rng.choice(units), rng.choice([1, 2, 3])
+                if ns[u].prefix.base in (0, ns[pf[0]].base):
+                    if rng.random() < 0.5:
+                        atoms = []
+                    forced = {"(%s*%s)" % (rng.choice(pf), u): e, u: -e}
         elif kind == "dim":
             atoms = [rng.choice(dimsyms) for _ in range(rng.choice([1, 2, 3]))]
         else:
@@ -99,6 +107,9 @@ def run(tier, seed):
         terms = {}
         for a in atoms:
             terms[a] = terms.get(a, 0) + rng.choice([-3, -2, -1, 1, 2, 3])
+        if forced:
+            for a_, e_ in forced.items():
+                terms[a_] = e_
         terms = [(a, e) for a, e in terms.items() if e != 0]
         if not terms:
             continue
